@@ -1,6 +1,6 @@
 (** Non-vacuity for C12: readers satisfying the hypotheses, and concrete runs of the model. *)
 From Coq Require Import NArith List Lia.
-From FF Require Import Lib.Word Gen.Consts_device_acpi_aml Aml.Stream Aml.Lex Aml.LexProofs Aml.Tree Aml.TreeSpec Aml.Parser Aml.ParserProofs Aml.ParserProofsTop Aml.ParserTotalBase Aml.ParserTotalFirst Aml.ParserTotalConn Aml.ParserTotalTop Aml.ParserTotalNonNamed Aml.ParserTotalCalls Aml.ParserTotalReloc Aml.ParserTotalMerge Aml.ParserTotalResolve Aml.ParserTotalLex Aml.ParserTotalTree Aml.ParserTotalDefer Aml.ParserTotalDeferW Aml.ParserTotalDeferV Aml.ParserTotalTyped.
+From FF Require Import Lib.Word Gen.Consts_device_acpi_aml Aml.Stream Aml.Lex Aml.LexProofs Aml.Tree Aml.TreeSpec Aml.Parser Aml.ParserProofs Aml.ParserProofsTop Aml.ParserTotalBase Aml.ParserTotalFirst Aml.ParserTotalConn Aml.ParserTotalTop Aml.ParserTotalNonNamed Aml.ParserTotalCalls Aml.ParserTotalReloc Aml.ParserTotalMerge Aml.ParserTotalResolve Aml.ParserTotalLex Aml.ParserTotalTree Aml.ParserTotalDefer Aml.ParserTotalDeferW Aml.ParserTotalDeferV Aml.ParserTotalTyped Aml.ParserTotalShape Aml.ParserTotalChain.
 Import ListNotations.
 Local Open Scope N_scope.
 
@@ -283,3 +283,18 @@ Example C12_typed_head_runs :
   | _ => False
   end.
 Proof. vm_compute. reflexivity. Qed.
+
+(** the hypotheses of C12_parse_total_partial_nopanic_rest are satisfiable (the state of C12_deferred_walk_nonvacuous with the
+    scope stack emptied) and on that state the resolve loop and the three last passes return ok *)
+Example C12_rest_nonvacuous :
+  exists (s : pstate) (g : ghost),
+    R (p_tree s) g /\
+    (forall i o, TreeSpec.get (p_tree s) i = Some o -> o_opcode o <> opFreed -> opInfo (o_infoIndex o) <> None) /\
+    rok (p_r s) /\ p_scopeStack s = [] /\ Inv (p_tables s) s /\
+    glive g 0 /\ groot g 0 /\ is_sb s 0 /\ tyS NoX (p_tables s) (p_handle s) (p_tree s) g /\
+    TM2 (p_tree s) g /\ PEND s g /\
+    (forall i o, TreeSpec.get (p_tree s) i = Some o -> o_opcode o <> opFreed -> o_opcode o = aml_pOpIntNamePathOrMethodCall ->
+                 exists tbl sl, o_value o = Some (VBytes tbl sl)) /\
+    lp s + lp s * (8 * r_len (p_r s) + 3) + 4 <= InvalidIndex /\
+    match parse_rest 10 s with Ok (b, s') => b = true /\ lp s' = 4 | _ => False end.
+Proof. exact rest_hyps_example. Qed.
